@@ -68,7 +68,7 @@ fn long_line_text(t: usize, c: usize, pad: usize) -> Option<String> {
 }
 /// 2-, 3-, 4-byte characters, a combining mark, U+00A0 and U+2028; a 2-byte numeric (superscript two), a 3-byte
 /// digit (fullwidth one) and the 3-byte white-space character U+3000
-const NONASCII: &[&str] = &["é", "€", "😀", "e\u{301}", "\u{a0}", "\u{2028}", "\u{b2}", "\u{ff11}", "\u{3000}"];
+const NONASCII: &[&str] = &["é", "€", "😀", "e\u{301}", "\u{a0}", "\u{2028}", "\u{b2}", "\u{ff11}", "\u{3000}", "\u{feff}"];
 
 fn repl() -> &'static Vec<String> {
     static R: OnceLock<Vec<String>> = OnceLock::new();
@@ -463,7 +463,7 @@ impl Driver for C11 {
         let nchar: usize = bs.iter().map(|b| b.text.chars().count()).sum();
         Describe {
             rule: format!(
-                "{} base texts ({} tokens, {} characters): the default rendering of every generator focus plus variants (versions, no END LIBRARY, mixed case, joined properties, all nine geometries), every raw string literal of lef21/src/tests.rs and read.rs, macro.lef, lib1.yaml, lib2.yaml, the empty file. Faults: every character-boundary prefix; at every token (comments and string literals included): deleted, duplicated, swapped with the next, replaced by each of {} tokens ({} keywords / enumeration words, ';', numbers, a name, a string literal, the empty string literal, an unterminated string, '-', '.', 1e9, -inf, a comment, five tokens starting with a non-ASCII numeric character, six numbers at and beyond the limits of a 96-bit decimal, four numbers with 29 / 36 decimals); 7 faulty texts whose faulty line is longer than 200 bytes and filled with 2- / 3- / 4-byte characters at every byte alignment; {} non-ASCII strings (2-, 3-, 4-byte, combining, U+00A0, U+2028, superscript two, fullwidth one, U+3000) inserted inside the token, as a token of its own, glued before / after it and in a comment before it{}; after each of {} parser contexts every token sequence of length <= {} over the same {} tokens, ending with a new-line and (length <= 2) ending with the last token's last character. distinct = distinct text (sequences are distinct by construction); non-trivial = non-blank text.",
+                "{} base texts ({} tokens, {} characters): the default rendering of every generator focus plus variants (versions, no END LIBRARY, mixed case, joined properties, all nine geometries), every raw string literal of lef21/src/tests.rs and read.rs, macro.lef, lib1.yaml, lib2.yaml, the empty file. Faults: every character-boundary prefix; at every token (comments and string literals included): deleted, duplicated, swapped with the next, replaced by each of {} tokens ({} keywords / enumeration words, ';', numbers, a name, a string literal, the empty string literal, an unterminated string, '-', '.', 1e9, -inf, a comment, five tokens starting with a non-ASCII numeric character, six numbers at and beyond the limits of a 96-bit decimal, four numbers with 29 / 36 decimals); 7 faulty texts whose faulty line is longer than 200 bytes and filled with 2- / 3- / 4-byte characters at every byte alignment; {} non-ASCII strings (2-, 3-, 4-byte, combining, U+00A0, U+2028, superscript two, fullwidth one, U+3000, the byte-order mark U+FEFF) inserted inside the token, as a token of its own, glued before / after it and in a comment before it{}; after each of {} parser contexts every token sequence of length <= {} over the same {} tokens, ending with a new-line and (length <= 2) ending with the last token's last character. distinct = distinct text (sequences are distinct by construction); non-trivial = non-blank text.",
                 bs.len(), ntok, nchar, repl().len(), lr::KEYWORDS.len(), NONASCII.len(),
                 format!("; on the {} smallest bases with at least 8 tokens every pair of faults (reduced operation set: delete, duplicate, swap, 25 replacements) at two non-adjacent tokens", tier.pick(6, 16)),
                 CONTEXTS.len(), tier.pick(2, 3), repl().len()
